@@ -154,6 +154,30 @@ def mutants():
 KEYOF = {"A": "verif_a", "B": "verif_b", "A2": "verif_a"}
 
 
+def inplace_faults():
+    """fault id -> function that damages an EXISTING module object in place
+    (the key stays): the same single faults as in mutants()"""
+    out = {}
+    for attr in REQUIRED + ["parameter_anc_keys", "parameter_anc_names",
+                            "parameter_anc_units"]:
+        if attr == "model_key":
+            continue
+        out[f"del_{attr}"] = lambda m, attr=attr: delattr(m, attr)
+    out["names_short"] = lambda m: setattr(
+        m, "parameter_names", m.parameter_names[:-1])
+    out["names_long"] = lambda m: setattr(
+        m, "parameter_names", m.parameter_names + ["Extra"])
+    out["units_short"] = lambda m: setattr(
+        m, "parameter_units", m.parameter_units[:-1])
+    out["keys_short"] = lambda m: setattr(
+        m, "parameter_keys", m.parameter_keys[:-1])
+    out["names_dup"] = lambda m: setattr(
+        m, "parameter_names", ["Same", "Same"] + m.parameter_names[2:])
+    out["keys_swapped"] = lambda m: setattr(
+        m, "parameter_keys", ["R", "E"] + m.parameter_keys[2:])
+    return out
+
+
 def files(tmp):
     """file id -> (path, holds)"""
     tmp = pathlib.Path(tmp)
@@ -273,7 +297,20 @@ def run_histories(job):
             try:
                 with warnings.catch_warnings():
                     warnings.simplefilter("ignore")
-                    if op[0] == "register":
+                    if op[0] == "register" and len(op) > 2 and op[2]:
+                        # the module object registered before (valid, key
+                        # of A) is damaged in place and registered again
+                        prev = [m for m in alive
+                                if objid.get(id(m)) in ("A", "A2")]
+                        if prev:
+                            mod = prev[-1]
+                        else:
+                            mod = muts["A"][0]()
+                            alive.append(mod)
+                        ev["inplace"] = True
+                        inplace_faults()[op[1]](mod)
+                        md = model.register_model(mod)
+                    elif op[0] == "register":
                         mod = muts[op[1]][0]()
                         objid[id(mod)] = op[1]
                         alive.append(mod)
@@ -358,7 +395,14 @@ def seed_cases():
         warnings.simplefilter("ignore")
         idnt.apply_preprocessing(["compute_tip_position",
                                   "correct_tip_offset"])
-    for combo in itertools.product(["absent", "nan", "val"], repeat=3):
+    # "not a number" comes in many objects: the numpy singleton, a Python
+    # float, a numpy scalar computed on the way, an array element
+    nan_flavours = [lambda: np.nan, lambda: float("nan"),
+                    lambda: np.float64(0.) * np.float64("inf"),
+                    lambda: np.array([1., np.nan])[1],
+                    lambda: np.float32("nan"), lambda: -np.nan]
+    for ci, combo in enumerate(itertools.product(["absent", "nan", "val"],
+                                                 repeat=3)):
         anc = dict(zip(names, combo))
         mod = build_module("verif_seed", "verif_seed")
         keys = [n for n in names if anc[n] != "absent"]
@@ -366,8 +410,11 @@ def seed_cases():
             mod.parameter_anc_keys = list(keys)
             mod.parameter_anc_names = [f"anc {n}" for n in keys]
             mod.parameter_anc_units = ["x"] * len(keys)
-            mod.compute_ancillaries = lambda fd, a=anc, k=keys: {
-                n: (np.nan if a[n] == "nan" else vals[n]) for n in k}
+            with np.errstate(all="ignore"):
+                nans = {n: nan_flavours[(ci + j) % len(nan_flavours)]()
+                        for j, n in enumerate(names)}
+            mod.compute_ancillaries = lambda fd, a=anc, k=keys, nn=nans: {
+                n: (nn[n] if a[n] == "nan" else vals[n]) for n in k}
         rec = {"anc": anc, "init": {}, "exc": ""}
         try:
             with warnings.catch_warnings():
@@ -408,6 +455,18 @@ def histories(tier, rng, muts, fls):
         for dwb in (False, True):
             for a in ops:
                 hists.append({"plug": plug, "dwb": dwb, "ops": [a]})
+    # register a valid module, damage the SAME object, register it again
+    for f in sorted(inplace_faults()):
+        for first in ("A", "A2"):
+            if first == "A2" and f.startswith("del_parameter_anc"):
+                continue      # (A2 has no ancillary attributes to lose)
+            hists.append({"plug": False, "dwb": False,
+                          "ops": [["register", first],
+                                  ["register", f, 1]]})
+            hists.append({"plug": True, "dwb": False,
+                          "ops": [["register", first], ["register", "B"],
+                                  ["register", f, 1],
+                                  ["deregister", "A"]]})
     interesting = [o for o in ops if o[0] != "register"
                    or o[1] in ("A", "B", "A2", "del_model_func",
                                "defaults_fewer", "names_dup")]
